@@ -6,7 +6,7 @@
    request-body chunks and respond, response bodies yield chunks, the socket accepts bytes), each
    guarded by the test the code makes; an event whose guard is closed leaves the state alone.
    [std_cfg wbs r h431 fix] carries the constants extracted from the sources. *)
-From AV Require Import Lib.Base Gen.Consts H1.ReadBuf H1.ReadBufProofs H1.Flush H1.Gates H1.GatesCfg H1.GatesProofs.
+From AV Require Import Lib.Base Gen.Consts H1.ReadBuf H1.ReadBufProofs H1.Flush H1.Gates H1.GatesCfg H1.GatesProofs Gen.DispatcherGuards H1.GuardsTie.
 
 (* unparsed input: |read_buf| < MAX_BUFFER_SIZE + (largest single read), always *)
 Theorem C05_read_buf_bound : forall wbs r h431 fx (es : list ev),
@@ -126,6 +126,32 @@ Theorem C05_write_buf_bound_outside_known : forall wbs r h431 fx H M (es : list 
 Proof.
   intros wbs r h431 fx H M es Hw Hh Hes Hnb.
   apply (write_buf_bound_outside_known (std_cfg wbs r h431 fx)); auto; try (vm_compute; reflexivity). cbn [c_wbs std_cfg std_cfg2]. lia.
+Qed.
+
+(* TRANSLATOR TIE (tools/gen/dispatcher_guards.py -> Gen/DispatcherGuards.v): the guards of the models
+   are the interpretation of the operator / operand records extracted from dispatcher.rs on every
+   run -- the read_available cap test and the growth rule, the two gates of poll_request with
+   can_read, and the SendPayload gate (fill level of write_buf against h1_write_buffer_size).
+   Editing one of those source lines regenerates the records and breaks this theorem. *)
+Theorem C05_guards_match_source :
+  (forall a b, op_b DG_READ_CAP_OP a b = (b <=? a)) /\
+  (forall c s n s', step c s (EvRead n) = Some s' -> op_b DG_READ_CAP_OP (rb s) (c_maxb c) = false) /\
+  (forall LW HW rem, DG_GROW_TEST_CONST = DgLW /\ DG_GROW_RESERVE_CONST = DgHW /\
+     spare_after_reserve LW HW rem = (if op_b DG_GROW_OP rem LW then N.max rem (HW - rem) else rem)) /\
+  (forall c s, pass s = false ->
+     ((exists s', step c s EvGate = Some s') <-> request_gate_closed c s = false)) /\
+  (forall c s, request_gate_closed c s = ((c_maxp c <=? lenN (q s)) || negb (can_read s))) /\
+  (forall s, can_read s = negb (rd_disc s) &&
+       match need_read_status s with
+       | None => true
+       | Some st => existsb (dg_status_eqb (dg_of_status (Some st))) DG_CAN_READ_STATUSES end) /\
+  (forall a b, op_b DG_SEND_GATE_OP a b = (a <? b)) /\
+  (forall c s e s', step c s (EvBodyChunk e) = Some s' \/ step c s (EvBodyEnd e) = Some s' ->
+     op_b DG_SEND_GATE_OP (wb s) (c_wbs c) = true).
+Proof.
+  split; [exact tie_read_cap_op|]. split; [exact tie_read_cap_step|]. split; [exact tie_growth|].
+  split; [exact tie_request_gate_step|]. split; [exact tie_request_gate|]. split; [exact tie_can_read|].
+  split; [exact tie_send_gate_op|exact tie_send_gate_step].
 Qed.
 
 (* non-vacuity: a schedule with a request body, back-pressure and a streamed response in which
